@@ -1407,6 +1407,9 @@ class LangServer:
                         inc_ast = inc.file.ast if inc.file is not None else None
                         if inc_ast is not None and inc_ast.inc_scope is not None:
                             inc_ast.none_scope = inc_ast.inc_scope
+                            # ... and under their own names
+                            for child in inc_ast.inc_scope.children:
+                                child.update_fqsn(inc_ast.inc_scope.FQSN)
                 # Other files must not stay linked to the removed objects
                 # (all include statements first: the links of one file may go
                 # through entities another file loses with the removed include)
